@@ -4,6 +4,7 @@ import (
 	"fmt"
 	"go/types"
 	"reflect"
+	"sort"
 	"strconv"
 	"strings"
 
@@ -817,7 +818,7 @@ func (p *Path) selectRows(t *sqlTable, st *sqlStmt, params []sqlVal, max int) []
 		}
 	}
 	var out []*StructVal
-	for _, row := range t.rows {
+	for _, row := range p.scanOrder(t, st) {
 		if max >= 0 && len(out) >= max {
 			break
 		}
@@ -831,6 +832,64 @@ func (p *Path) selectRows(t *sqlTable, st *sqlStmt, params []sqlVal, max int) []
 		}
 	}
 	return out
+}
+
+// scanOrder is the order in which SQLite visits the rows: rowid (insertion) order for a table scan, but the order of
+// the primary-key index (name, linkname) when the statement pins the leading key column with `name = ?` (probed against
+// modernc SQLite: with a link row inserted before its target row, `where name = ? limit 1` still returns the target row,
+// whose linkname "" sorts first). Lengths of strings are concrete, so "empty before non-empty" needs no solver call;
+// non-empty link names are ordered bytewise when they are concrete and left in rowid order otherwise.
+func (p *Path) scanOrder(t *sqlTable, st *sqlStmt) []*StructVal {
+	if st.where == nil || !sqlPinsColumn(st.where, "name") {
+		return t.rows
+	}
+	li, ok := t.col["linkname"]
+	if !ok {
+		return t.rows
+	}
+	rows := append([]*StructVal{}, t.rows...)
+	key := func(r *StructVal) (string, int) {
+		sv, ok := r.F[li].(*StrVal)
+		if !ok {
+			return "", 2
+		}
+		if sv.Len() == 0 {
+			return "", 0
+		}
+		if c, ok := sv.Concrete(); ok {
+			return c, 1
+		}
+		return "", 2
+	}
+	sort.SliceStable(rows, func(i, j int) bool {
+		ci, ki := key(rows[i])
+		cj, kj := key(rows[j])
+		if ki == 0 || kj == 0 {
+			return ki == 0 && kj != 0
+		}
+		if ki == 1 && kj == 1 {
+			return ci < cj
+		}
+		return false
+	})
+	return rows
+}
+
+// sqlPinsColumn: the expression is a conjunction one of whose conjuncts is `<col> = <parameter or literal>`.
+func sqlPinsColumn(e *sqlExpr, col string) bool {
+	if e == nil {
+		return false
+	}
+	if e.op == "bin" && e.name == "and" {
+		return sqlPinsColumn(e.args[0], col) || sqlPinsColumn(e.args[1], col)
+	}
+	if e.op == "bin" && e.name == "=" {
+		l, r := e.args[0], e.args[1]
+		isCol := func(x *sqlExpr) bool { return (x.op == "col" || x.op == "dq") && x.name == col }
+		isVal := func(x *sqlExpr) bool { return x.op == "param" || x.op == "lit" }
+		return (isCol(l) && isVal(r)) || (isCol(r) && isVal(l))
+	}
+	return false
 }
 
 // bindRow copies selected columns of a row into a struct pointer (by boil tag, else by field name).
